@@ -73,6 +73,8 @@ class Ctx:
         self.notes = []
         self.findings = load_known_findings(prop)
         os.makedirs(os.path.join(WORK, "replays"), exist_ok=True)
+        import glob
+        for f in glob.glob(os.path.join(WORK, "replays", "%s-%s-%d-*" % (prop, tier, seed))): os.remove(f)
         os.makedirs(os.path.join(VERIF, "evidence"), exist_ok=True)
 
     # ---------------------------------------------------------------- build
